@@ -666,6 +666,11 @@ func (w *speller) intLit(v int64, nonneg bool) {
 
 func (w *speller) number(n *N) {
 	if n.K == KInt {
+		if n.I == 0 && w.st.lex() && w.st.coin(5) {
+			// signs fold into a literal, any number of them: zero stays zero
+			w.tok([]string{"-0", "- -0", "-(-0)", "-(-(0))", "+0", "-0x0", "- - -0", "-(-0b0)"}[w.st.R.IntN(8)])
+			return
+		}
 		if n.I < 0 {
 			w.tok("-")
 			if n.I == math.MinInt64 {
